@@ -8,7 +8,10 @@ from checks import _translator
 
 THEOREMS = {"Properties.C11gen": ["C11_generated_okey_matches_model", "C11_generated_okey_order", "C11gen_nonvacuous"],
             "Properties.C11": ["C11_index_consistent", "C11_filter_exact", "C11_filter_exact_ordered", "C11_batch_delete_exact",
-                               "C11_okey_order", "C11_nonvacuous"]}
+                               "C11_okey_order", "C11_nonvacuous"],
+            # TieredEngine level (Model/Tiered.v filter_delete / opx, Proofs/TieredFilterProofs.v)
+            "Properties.C11tier": ["C11tier_mirror_meta_fresh", "C11tier_filter_delete_exact", "C11tier_filter_delete_exact_state",
+                                   "C11tier_mirror_merge_variant_refuted", "C11tier_nonvacuous"]}
 PINS = {"Properties.C11": {
     "_preamble": "From Coq Require Import List NArith ZArith Bool. From Kyro Require Import Model.Filter Proofs.FilterLemmas Proofs.FilterProofs. Import ListNotations.",
     "C11_index_consistent": "forall (parse : str -> option Z) (s : state), reachable parse s -> lookups_agree (idx s) (rebuild_from parse (slots s))",
@@ -16,6 +19,11 @@ PINS = {"Properties.C11": {
     "C11_filter_exact_ordered": "forall (parse : str -> option Z) (s : state) (f : mfilter), reachable parse s -> ids_for_filter parse s f = map fst (filter (fun dm => matches parse f (snd dm)) (live_docs (slots s)))",
     "C11_batch_delete_exact": "forall (parse : str -> option Z) (s : state) (f : mfilter), reachable parse s -> forall d m, In (d, m) (live_docs (slots (fst (step parse s (OBatchDeleteFilter f))))) <-> In (d, m) (live_docs (slots s)) /\\ matches parse f m = false",
     "C11_okey_order": "forall a b : Z, (0 <= a < two64)%Z -> (0 <= b < two64)%Z -> f64_is_nan a = false -> f64_is_nan b = false -> (okey a <=? okey b)%Z = f64_le a b /\\ (okey a <? okey b)%Z = f64_lt a b /\\ ((okey a =? okey b)%Z = f64_eq a b)",
+},
+    "Properties.C11tier": {
+    "_preamble": "From Coq Require Import List NArith ZArith Bool Arith. From Kyro Require Import Model.TMap Model.Tiered Proofs.TieredProofs Proofs.TieredFilterProofs. Import ListNotations.",
+    "C11tier_mirror_meta_fresh": "forall (digest : vec -> dgst) (valid : vec -> bool), (forall a b : vec, digest a = digest b -> a = b) -> forall (c : config) (docs : list (N * vec * meta)) (ops : list opx), forallb no_hot_poke_x ops = true -> let s := runx digest valid c (init docs) ops in forall (id : N) (h : hent), lookup id (hot s) = Some h -> exists r, lookup id (cold s) = Some r /\\ h_meta h = c_meta r",
+    "C11tier_filter_delete_exact": "forall (digest : vec -> dgst) (valid : vec -> bool), (forall a b : vec, digest a = digest b -> a = b) -> forall (c : config) (docs : list (N * vec * meta)) (ops : list opx) (f : tfilter), forallb no_hot_poke_x ops = true -> let s := runx digest valid c (init docs) ops in let r := stepx digest valid c s (OFilterDelete f) in let sel := fun id => match lookup id (cold s) with Some rc => tmatch f (c_meta rc) | None => false end in (forall id, lookup id (cold (fst r)) = if sel id then None else lookup id (cold s)) /\\ (forall id, lookup id (hot (fst r)) = if sel id then None else lookup id (hot s)) /\\ (exists L, NoDup L /\\ (forall id, In id L <-> sel id = true) /\\ snd r = RCount (Some (length L)))",
 },
     "Properties.C11gen": {
     "_preamble": "From Coq Require Import ZArith Bool. From Kyro Require Import Model.Filter gen.OrderedF64_gen Proofs.FilterLemmas Proofs.OrderedF64GenProofs. Open Scope Z_scope.",
@@ -28,8 +36,12 @@ TRUSTED = [
     "f64 comparison = sign-magnitude comparison of IEEE-754 bit patterns with NaN unordered and -0 = +0 (Model/Filter.v f64_lt/f64_le); checked on every run against Rust's own operators on all ordered pairs of the corpus values (fbad must be empty); OrderedF64::from_f64 is transcribed on bit patterns (`bits | 1<<63` as +2^63, `!bits` as 2^64-1-bits) and proved order-isomorphic (C11_okey_order)",
     "RoaringTreemap is modelled as a finite set of internal ids with ascending iteration; HashMap/BTreeMap levels of the index as association lists (a BTreeMap range query as a key filter); DocumentStore.external_to_internal as the derived lookup over internal_to_external",
     "recovery is modelled at the store level (live documents in ascending external-id order, index rebuilt); that WAL+snapshot reproduce the live documents is C02's statement, checked here only through the recover operations of the seeded histories",
-    "scope: the cold tier (HnswBackend). TieredEngine::batch_delete_by_metadata_filter additionally scans the hot tier with metadata_filter::matches directly (reference semantics by construction); the driver replays its cold-tier part (ids_for_metadata_filter, sort, dedup, batch_delete)",
+    "scope of Model/Filter.v: the cold tier (HnswBackend); the c11 driver replays the cold-tier part of the filtered delete (ids_for_metadata_filter, sort, dedup, batch_delete)",
+    "TieredEngine::batch_delete_by_metadata_filter (hot-tier scan over the MIRROR's metadata, union with the cold-tier index, batch_delete) is modelled in Model/Tiered.v (filter_delete, operation type opx = every C04 operation + OFilterDelete) over interned metadata and the filter shapes All / Exact / In / Not / And / Or (Range needs the string/number parser and stays at the backend level); the cold-tier selection is modelled by its specification (the documents whose stored metadata matches), which is C11_filter_exact; C11tier_* are proved over that model, which is tied to the code by the per-operation full-state correspondence of the c04 driver run with --filter-deletes (same trusted base as C04: digest_inj premise, `valid` instantiated from the vector pool, admission decisions recorded from the real strategy) and by the direct oracle over the engine's own metadata_filter::matches",
+    "C11tier premise no_hot_poke_x: mirror entries planted through HotTier::insert_with_coherence by a harness are excluded (they carry harness-chosen metadata); every public TieredEngine operation and L1a cache pokes are included",
 ]
+
+TIER_KINDS = ("filter-delete-inexact", "filter-delete-count", "filter-delete-survivor-changed", "filter-delete-mirror-left")
 
 
 def _pairs(text):
@@ -48,31 +60,139 @@ def _run_driver(ctx, out, n, per_state, seed, replay=None, timeout=1500):
     return rc, o
 
 
+def _is_tiered_replay(path):
+    """A replay written by the tiered stage carries a c04-driver case (ops_raw)."""
+    if not path:
+        return False
+    try:
+        v = json.load(open(path))
+    except Exception:
+        return False
+    c = v.get("case", v) if isinstance(v, dict) else None
+    return isinstance(c, dict) and "ops_raw" in c
+
+
+def _run_fd(out, n, seed, replay=None, timeout=1500):
+    os.makedirs(out, exist_ok=True)
+    for f in os.listdir(out):
+        p = os.path.join(out, f)
+        if os.path.isfile(p):
+            os.remove(p)
+    args = [vlib.bin_path("c04"), "--out", out, "--n", str(n), "--filter-deletes"]
+    if replay:
+        args += ["--replay", replay]
+    return vlib.sh(args, env={"VERIF_SEED": str(seed)}, timeout=timeout)
+
+
+def _tiered(ctx, quick, replay):
+    """TieredEngine-level stage: seeded histories with batch_delete_by_metadata_filter through the c04
+    driver (`--filter-deletes`), full-state correspondence with Model/Tiered.v inside coqc, direct
+    exactness oracle. Returns {"crash":…} or {"oracle": [...], "broken": [...]} and fills ctx.cov."""
+    from checks import c04 as _c04
+    out = os.path.join(vlib.CACHE, "run", "C11tier")
+    rounds = [(240, ctx.seed)] if quick else [(1500, ctx.seed + 7919 * k) for k in range(4)]
+    if replay:
+        rounds = [(0, ctx.seed)]
+    tot = {"cases": 0, "ops": 0, "directed": 0}
+    fdt, hist, oracle, bad_all, coq_err_all, cases_eval, ops_eval = {}, {}, [], [], [], 0, 0
+    first_bad = None
+    sample = None
+    for (n, seed) in rounds:
+        rc, o = _run_fd(out, n, seed, replay)
+        ctx.log("harness_tiered.log", o)
+        if rc != 0:
+            return {"crash": {"property": "C11", "kind": "harness-crashed", "stage": "tiered (c04 --filter-deletes)", "rc": rc,
+                              "seed": seed, "log_tail": o[-3000:]}}
+        summ = json.load(open(os.path.join(out, "summary.json")))
+        allc = json.load(open(os.path.join(out, "all_cases.json")))
+        for k in tot:
+            tot[k] += summ.get(k, 0)
+        for k, v in summ.get("filter_deletes", {}).items():
+            fdt[k] = fdt.get(k, 0) + v
+        for k, v in summ["histogram"].items():
+            if k.startswith("op:"):
+                hist[k] = hist.get(k, 0) + v
+        sample = sample or (summ["samples"][:1] or allc[:1])
+        oracle += summ["oracle_failures"]
+        bad, ce, oe, coq_err = _c04._coq_eval("C11tier", out, summ)
+        cases_eval += ce
+        ops_eval += oe
+        coq_err_all += coq_err
+        if bad and first_bad is None:
+            cid, step = bad[0]
+            first_bad = (allc[cid] if cid < len(allc) else None, step, seed)
+        bad_all += [(cid, step, seed) for (cid, step) in bad]
+    ctx.cov["tiered"] = {
+        "rule": "TieredEngine level: seeded histories (5-28 ops, 6 ids, 3 keys x 3 values) through the public API with batch_delete_by_metadata_filter: documents stay hot-resident (soft 3/100, hard 2/4), receive merge AND replace updates (half of the replaces drop exactly one key of the document), filters aim at dropped bindings (Exact / In / Or / And-Not / double negation) or are random trees of depth <= 3 incl. unset filter_type, operand-less NOT, empty AND/OR; forced/threshold drains, ticks, bulk loads, deletes, L1a pokes in between; 4 directed histories first (the witness of C11tier_mirror_merge_variant_refuted before and after a drain). After EVERY op the result and the full state (cold, hot mirror incl. its metadata, both L1a caches, counters) are compared with Model/Tiered.v inside coqc; the oracle reads the canonical metadata of every id before each filtered delete, evaluates the engine's own metadata_filter::matches on it, and requires: removed ids == matching ids, returned count == their number, every survivor's canonical record unchanged, no mirror entry of a removed id left",
+        "histories": tot["cases"],
+        "directed_histories": tot["directed"],
+        "operations_run": tot["ops"],
+        "histories_compared_in_coq": cases_eval,
+        "operations_compared_in_coq": ops_eval,
+        "filtered_deletes": fdt.get("filtered_deletes", 0),
+        "filtered_deletes_that_removed_a_document": fdt.get("removed_at_least_one_document", 0),
+        "filtered_deletes_with_hot_resident_document_after_key_dropping_replace": fdt.get("with_hot_resident_document_after_key_dropping_replace", 0),
+        "filtered_deletes_whose_selection_differs_if_the_mirror_merged_replaces": fdt.get("selection_differs_if_mirror_merged_replaces", 0),
+        "filtered_deletes_with_cold_only_documents_after_a_drain": fdt.get("with_cold_only_documents_after_a_drain", 0),
+        "histories_with_filtered_delete": fdt.get("histories_with_filtered_delete", 0),
+        "op_histogram": hist,
+        "model_disagreements": len(bad_all),
+        "oracle_failures": len(oracle),
+        "sample": sample,
+    }
+    ctx.cov["traces_validated_against_impl_tiered"] = cases_eval
+    broken = []
+    if coq_err_all:
+        broken.append({"kind": "tiered-cases-evaluation-error", "detail": coq_err_all[:2]})
+    if bad_all:
+        case, step, seed = first_bad
+        small = _c04.shrink_disagreement("C11tier", case, budget=30) if case else None
+        broken.append({"kind": "tiered-correspondence", "disagreements": len(bad_all),
+                       "first": {"case_id": bad_all[0][0], "step": step, "seed": seed},
+                       "minimised_disagreeing_history": small,
+                       "note": "Model/Tiered.v and the real TieredEngine differ in an operation result or in the state (cold / hot mirror incl. metadata / L1a / counters) after that step"})
+    return {"oracle": oracle, "broken": broken}
+
+
+def _tiered_violation(ctx, f, broken=None):
+    from checks import c04 as _c04
+    small = _c04.shrink_oracle("C11tier", f["case"])
+    obj = {"property": "C11", "level": "TieredEngine::batch_delete_by_metadata_filter",
+           "kind": "oracle:" + f["kind"], "why": f["why"], "op_index": f.get("op_index"),
+           "case": small, "original_case": f["case"],
+           "replay_cmd": "./check C11 --replay <this file>   (or: c04 --out DIR --replay <this file>)"}
+    if broken:
+        obj["broken"] = broken
+    ctx.violation(obj)
+
+
 def run(ctx):
     quick = ctx.tier == "quick"
+    tier_replay = ctx.replay if _is_tiered_replay(ctx.replay) else None
+    backend_replay = None if tier_replay else ctx.replay
     n = 12 if quick else 72
     per_state = 200 if quick else 0          # 0 = every Rust-side pair is also evaluated in Coq
     ctx.trusted += TRUSTED
     ctx.trusted.append("harness/p/translator target ordered_f64 (syn parser + typed Rust-subset -> Gallina translator, fails closed): OrderedF64::from_f64 on bit patterns in Z (`==` on floats is Filter.f64_eq, float literals become their exact bits, `!x` is Z.lnot x mod 2^64, `1u64 << 63` carries mod 2^64); the derived Ord of the tuple struct is the integer order (the translator checks the derive)")
     # regenerate coq/gen/OrderedF64_gen.v from hnsw_backend.rs (fails closed); Properties/C11gen.v proves it equal to Filter.okey
     gen = _translator.regen(ctx, "ordered_f64", "OrderedF64_gen", also_build=["c11"])
-    proofs_ok = ctx.proof_phase(["Properties/C11.vo", "Properties/C11gen.vo"], THEOREMS, pins=PINS)
+    proofs_ok = ctx.proof_phase(["Properties/C11.vo", "Properties/C11gen.vo", "Properties/C11tier.vo"], THEOREMS, pins=PINS)
     gen_broken = []
     if gen["broken"]:
         gen_broken.append(gen["broken"])
     elif _translator.stale_vo("OrderedF64_gen"):
         gen_broken.append({"kind": "generated-model-did-not-compile", "file": "coq/gen/OrderedF64_gen.v"})
 
-    ok, log = vlib.cargo_build(["c11"])
+    ok, log = vlib.cargo_build(["c11", "c04"])
     ctx.log("cargo.log", log)
     if not ok:
         ctx.say("harness build failed")
         ctx.violation({"property": "C11", "kind": "harness-build-failed", "log_tail": log[-3000:],
-                       "unchecked": "correspondence Model/Filter.v vs engine/src/{metadata_filter,hnsw_backend}.rs"},
+                       "unchecked": "correspondence Model/Filter.v vs engine/src/{metadata_filter,hnsw_backend}.rs and Model/Tiered.v (filter_delete) vs engine/src/tiered_engine.rs"},
                       no_input=True)
         return
     out = os.path.join(vlib.CACHE, "run", "C11", "main")
-    rc, o = _run_driver(ctx, out, n, per_state, ctx.seed, ctx.replay)
+    rc, o = _run_driver(ctx, out, n, per_state, ctx.seed, backend_replay)
     ctx.log("harness.log", o)
     if rc != 0:
         ctx.violation({"property": "C11", "kind": "harness-crashed", "rc": rc, "log_tail": o[-3000:]}, no_input=True)
@@ -111,6 +231,13 @@ def run(ctx):
         "oracle_failures": len(summ["oracle_failures"]),
         "rust_eval_ms": summ.get("rust_ms"),
     })
+    # --- TieredEngine level (skipped when a backend-level case is being replayed)
+    tier = {"oracle": [], "broken": []}
+    if not backend_replay:
+        tier = _tiered(ctx, quick, tier_replay)
+        if "crash" in tier:
+            ctx.violation(tier["crash"], no_input=True)
+            return
     # --- decide
     if summ["oracle_failures"]:
         f = summ["oracle_failures"][0]
@@ -119,7 +246,11 @@ def run(ctx):
                        "more_failures": len(summ["oracle_failures"]) - 1,
                        "replay_cmd": "./check C11 --replay <this file>"})
         return
-    broken = list(gen_broken)
+    if tier["oracle"]:
+        mine = [f for f in tier["oracle"] if f["kind"] in TIER_KINDS] or tier["oracle"]
+        _tiered_violation(ctx, mine[0], tier["broken"])
+        return
+    broken = list(gen_broken) + tier["broken"]
     if not proofs_ok:
         broken.append({"kind": "proof-obligations", "failed": ctx.failed_obligations})
     if coq_err:
@@ -149,11 +280,28 @@ def run(ctx):
                 found = []
             if found:
                 break
+        tfound = []
+        if not found and not ctx.replay:
+            # TieredEngine level: more filtered-delete histories
+            for k in range(3):
+                tout = os.path.join(vlib.CACHE, "run", "C11tier_search")
+                rc, o = _run_fd(tout, 3000, ctx.seed + 104729 * (k + 1))
+                try:
+                    tfound = json.load(open(os.path.join(tout, "summary.json")))["oracle_failures"]
+                except Exception:
+                    tfound = []
+                if tfound:
+                    break
+            shutil.rmtree(os.path.join(vlib.CACHE, "run", "C11tier_search"), ignore_errors=True)
         if found:
             f = found[0]
             ctx.violation({"property": "C11", "kind": "oracle", "why": f.get("why"), "case": f.get("case"),
                            "ids_index": f.get("ids_index"), "ids_scan": f.get("ids_scan"), "broken": broken})
+        elif tfound:
+            _tiered_violation(ctx, ([f for f in tfound if f["kind"] in TIER_KINDS] or tfound)[0], broken)
         else:
+            tb = next((b for b in broken if b.get("kind") == "tiered-correspondence"), None)
             ctx.violation({"property": "C11", "kind": "no-failing-input-found", "broken": broken,
-                           "note": "the model and the implementation disagree, or a theorem no longer checks, but ids_for_metadata_filter == scan(matches) held on every (filter,state) pair of 180 further seeded histories (about 400k pairs)"},
+                           "case": tb["minimised_disagreeing_history"] if tb else None,
+                           "note": "the model and the implementation disagree, or a theorem no longer checks, but ids_for_metadata_filter == scan(matches) held on every (filter,state) pair of 180 further seeded histories (about 400k pairs) and every filtered delete of 9000 further TieredEngine histories removed exactly the documents whose canonical metadata matched"},
                           no_input=True)
